@@ -1,5 +1,513 @@
 /-
-  Props/C10.lean — property theorems for C10 (stub; to be filled in).
+  Props/C10.lean — C10: trusted and fast shortcut paths equal the validated paths on valid data.
+
+  Models: Sem/Trusted.lean (the classifier `_structure_simplicity_level`, the trusted branch of
+  `deserialize_structure_internal`, `from_trusted_data` / `trust_supplied_values`), Sem/Fast.lean
+  (`create_serializer` and the per-field `serialize` methods), next to the regular paths
+  Sem/Deser.lean (`deserialize`), Sem/Validate.lean (`construct`), Sem/Serde.lean (`serialize`).
+  All theorems quantify over ALL class declarations (unbounded nesting), documents, keyword
+  arguments, instances and oracles; proofs are mutual structural inductions over `FieldDecl`
+  (Lemmas/Trusted.lean, Lemmas/TrustedCtor.lean, Lemmas/Fast.lean).
+
+  The code violates the property as stated (`trusted_statement`, `ineligible_statement`,
+  `from_trusted_statement`, `fast_statement` below are all FALSE of the model, which mirrors the
+  code): each known defect is a kernel-checked counterexample theorem, and what is proved are the
+  `_partial` theorems, restricted by explicit decidable predicates to the complement of the
+  known-finding region (Spec/TrustedSafe.lean, Spec/FastSafe.lean).
+
+  "equal" is `eqv`: Python `==` where `Structure.__eq__` reads an attribute holding None like an
+  unset one and a frozenset equals the set of the same elements (`tnorm` normal forms equal).
+  "serializing identically" is equality of the serialized documents (strict: 1 and 1.0 differ).
 -/
+import TypedpyModel.Lemmas.TrustedCtor
+import TypedpyModel.Lemmas.Fast
 namespace Typedpy.C10
+open Typedpy
+
+/-! ## 1. trusted deserialization -/
+
+/-- the statement at full strength: every class typedpy classifies as eligible, every JSON
+    document the regular path accepts -/
+def trusted_statement : Prop :=
+  ∀ (O : Oracles) (opts : DeserOpts) (cls : FieldDecl) (d x : PyVal),
+    wfDecl cls = true → eligible noMappers cls = true → isJson d = true →
+    deserialize O opts cls d = .ok x →
+    ∃ y, deserializeTrusted noMappers O opts cls d = .ok y ∧ eqv x y = true
+      ∧ serialize O cls y = serialize O cls x
+
+/-- **C10 (trusted deserialization), proved part**: for every eligible class in the region
+    `tsafeCls` (nested classes at any depth, Array / Optional of scalars and classes, Set of
+    scalars, Enum, `_ignore_none`, additional properties on or off) and every document in
+    `plainDoc` that the regular path accepts, `direct_trusted_mapping=True` returns an instance
+    equal to the regular one, and both serialize to the same document. -/
+theorem trusted_equiv_partial (O : Oracles) (opts : DeserOpts) (cls : FieldDecl) (d x : PyVal)
+    (he : eligible noMappers cls = true) (hs : tsafeCls cls = true)
+    (hp : plainDoc opts cls d = true) (hr : deserialize O opts cls d = .ok x) :
+    ∃ y, deserializeTrusted noMappers O opts cls d = .ok y ∧ eqv x y = true
+      ∧ serialize O cls y = serialize O cls x := by
+  rcases trusted_equiv_core O opts cls d x he hs hp hr with ⟨y, h1, h2, h3⟩
+  refine ⟨y, h1, ?_, h3⟩
+  unfold eqv
+  rw [h2]
+  exact pyEq_refl _
+
+/-- for a class typedpy does not classify as eligible (and whose mapper it supports) the flag
+    changes nothing -/
+theorem ineligible_noop_partial (Mp : MapEnv) (O : Oracles) (opts : DeserOpts) (cls : FieldDecl)
+    (d : PyVal) (hcls : ∃ c fs ds, cls = .struct c fs ds)
+    (he : eligible Mp cls = false) (hm : verdictOf Mp cls ≠ .raises) :
+    deserializeWithFlag Mp O opts true cls d = deserialize O opts cls d := by
+  rcases hcls with ⟨c, fs, ds, rfl⟩
+  unfold eligible at he
+  simp only [deserializeWithFlag, if_true, deserializeTrusted]
+  cases hv : verdictOf Mp (.struct c fs ds) with
+  | raises => exact absurd hv hm
+  | no => rfl
+  | lvl l => simp [hv] at he
+
+def ineligible_statement : Prop :=
+  ∀ (Mp : MapEnv) (O : Oracles) (opts : DeserOpts) (c : ClassOpts) (fs : List (String × FieldDecl))
+    (ds : List (String × PyVal)) (d : PyVal),
+    eligible Mp (.struct c fs ds) = false →
+    deserializeWithFlag Mp O opts true (.struct c fs ds) d = deserialize O opts (.struct c fs ds) d
+
+/-! ### counterexamples: the known findings of the trusted path (each checked by the kernel) -/
+
+def exO : Oracles := { reMatch := fun _ _ => true }
+def isErr {α} (r : R α) : Bool := match r with | .error _ => true | .ok _ => false
+def isOk {α} (r : R α) : Bool := match r with | .error _ => false | .ok _ => true
+
+def mkCls (name : String) (req : List String) (fields : List (String × FieldDecl))
+    (defaults : List (String × PyVal) := []) : FieldDecl :=
+  .struct { name := name, required := req, accepts := [name] } fields defaults
+
+def foo : FieldDecl := mkCls "Foo" ["a"] [("a", .integer {})]
+def str0 : FieldDecl := .string none none none
+
+/-- finding `crash:enum-mapping`: a class with a non-optional `AnyOf` field is classified eligible
+    (`not_nested`), the regular path accepts `{"m": 1}`, the trusted path raises AttributeError -/
+def cxCrash : FieldDecl := mkCls "A" ["m"] [("m", .anyOf [.integer {}, str0])]
+theorem counterexample_crash_enum_mapping :
+    wfDecl cxCrash = true ∧ eligible noMappers cxCrash = true
+    ∧ isOk (deserialize exO {} cxCrash (.dict [(.str "m", .int 1)])) = true
+    ∧ isErr (deserializeTrusted noMappers exO {} cxCrash (.dict [(.str "m", .int 1)])) = true := by
+  decide
+
+/-- finding `optional-unchecked:non-none-option`: `Optional[Map[String, Foo]]` is classified
+    eligible although the non-None option is never inspected; the trusted instance holds the raw
+    dict, the regular one a `Foo` -/
+def cxOptMap : FieldDecl := mkCls "A" ["m"] [("m", .anyOf [.mapOf str0 foo {}, .noneF])]
+def cxOptMapDoc : PyVal := .dict [(.str "m", .dict [(.str "k", .dict [(.str "a", .int 1)])])]
+theorem counterexample_optional_unchecked :
+    wfDecl cxOptMap = true ∧ eligible noMappers cxOptMap = true ∧ isJson cxOptMapDoc = true
+    ∧ (match deserialize exO {} cxOptMap cxOptMapDoc, deserializeTrusted noMappers exO {} cxOptMap cxOptMapDoc with
+        | .ok x, .ok y => !eqv x y
+        | _, _ => false) = true := by
+  decide
+
+/-- finding `optional-unchecked:none-first`: `_extract_non_nonefield_from_optional` returns
+    `fields[0]` in both branches, so `AnyOf[NoneField, Foo]` keeps the raw dict -/
+def cxNoneFirst : FieldDecl := mkCls "A" ["m"] [("m", .anyOf [.noneF, foo])]
+theorem counterexample_optional_none_first :
+    eligible noMappers cxNoneFirst = true
+    ∧ (match deserialize exO {} cxNoneFirst (.dict [(.str "m", .dict [(.str "a", .int 1)])]),
+             deserializeTrusted noMappers exO {} cxNoneFirst (.dict [(.str "m", .dict [(.str "a", .int 1)])]) with
+        | .ok x, .ok y => !eqv x y
+        | _, _ => false) = true := by
+  decide
+
+/-- finding `unnormalised:array-of-enum`: `Array[Enum[Color]]` keeps the member names -/
+def cxArrEnum : FieldDecl := mkCls "A" ["m"] [("m", .seqOf .list (.enumCls "Color" ["RED", "BLUE"]) {})]
+theorem counterexample_array_of_enum :
+    eligible noMappers cxArrEnum = true
+    ∧ (match deserialize exO {} cxArrEnum (.dict [(.str "m", .list [.str "RED"])]),
+             deserializeTrusted noMappers exO {} cxArrEnum (.dict [(.str "m", .list [.str "RED"])]) with
+        | .ok x, .ok y => !eqv x y
+        | _, _ => false) = true := by
+  decide
+
+/-- finding `dropped:set-items`: the Set branch of `_remap_input` assigns nothing for items that
+    are neither Integer/String/Float/Boolean/NoneField nor Serializable nor a class: `Set[Number]`
+    loses the field -/
+def cxSetNumber : FieldDecl := mkCls "A" ["m"] [("m", .setOf false (.number {}) {})]
+theorem counterexample_set_items_dropped :
+    eligible noMappers cxSetNumber = true
+    ∧ (match deserialize exO {} cxSetNumber (.dict [(.str "m", .list [.int 1])]),
+             deserializeTrusted noMappers exO {} cxSetNumber (.dict [(.str "m", .list [.int 1])]) with
+        | .ok x, .ok (.inst "A" []) => !eqv x (.inst "A" [])
+        | _, _ => false) = true := by
+  decide
+
+/-- finding `unnormalised:boolean-string`: the regular path turns 'True' into `True` -/
+def cxBool : FieldDecl := mkCls "A" ["m"] [("m", .boolean)]
+theorem counterexample_boolean_string :
+    eligible noMappers cxBool = true
+    ∧ (match deserialize exO {} cxBool (.dict [(.str "m", .str "True")]),
+             deserializeTrusted noMappers exO {} cxBool (.dict [(.str "m", .str "True")]) with
+        | .ok x, .ok y => !eqv x y
+        | _, _ => false) = true := by
+  decide
+
+/-- finding `dropped:undeclared-keys`: with keep_undefined and additional properties the regular
+    path keeps an undeclared key as an attribute, `from_trusted_data` only copies declared fields -/
+def cxExtras : FieldDecl := mkCls "A" ["m"] [("m", .integer {})]
+theorem counterexample_undeclared_keys :
+    eligible noMappers cxExtras = true
+    ∧ (match deserialize exO { keepUndefined := true } cxExtras (.dict [(.str "m", .int 1), (.str "zz", .int 3)]),
+             deserializeTrusted noMappers exO { keepUndefined := true } cxExtras
+               (.dict [(.str "m", .int 1), (.str "zz", .int 3)]) with
+        | .ok x, .ok y => !eqv x y
+        | _, _ => false) = true := by
+  decide
+
+/-- observation that tells two serialized documents apart: the value under key `k` -/
+def docHas (k : String) (p : PyVal → Bool) (r : R PyVal) : Bool :=
+  match r with
+  | .ok (.dict kvs) => kvs.any fun kv => (match kv.1 with | .str s => s == k | _ => false) && p kv.2
+  | _ => false
+
+/-- finding `defaults-not-applied`: the trusted instance lacks the default the constructor stores;
+    the instances are `==` (reads fall back to the default) but serialize differently -/
+def cxDefault : FieldDecl := mkCls "A" [] [("m", .integer {}), ("n", .integer {})] [("m", .int 5)]
+theorem counterexample_defaults :
+    eligible noMappers cxDefault = true
+    ∧ ∀ x y, deserialize exO {} cxDefault (.dict [(.str "n", .int 1)]) = .ok x →
+        deserializeTrusted noMappers exO {} cxDefault (.dict [(.str "n", .int 1)]) = .ok y →
+        serialize exO cxDefault y ≠ serialize exO cxDefault x := by
+  refine ⟨by decide, fun x y hx hy h => ?_⟩
+  have e1 : docHas "m" (fun _ => true) (bindE (deserialize exO {} cxDefault (.dict [(.str "n", .int 1)])) (serialize exO cxDefault)) = true := by decide
+  have e2 : docHas "m" (fun _ => true) (bindE (deserializeTrusted noMappers exO {} cxDefault (.dict [(.str "n", .int 1)])) (serialize exO cxDefault)) = false := by decide
+  rw [hx] at e1; rw [hy] at e2
+  simp only [bindE_ok] at e1 e2
+  rw [h, e1] at e2
+  cases e2
+
+/-- finding `unnormalised:float-int`: a Float field given `1` holds `1.0` on the regular path and `1`
+    on the trusted path: `==` holds, the serialized JSON numbers differ (1.0 vs 1) -/
+def cxFloat : FieldDecl := mkCls "A" ["m"] [("m", .float {})]
+def isIntDoc : PyVal → Bool | .int _ => true | _ => false
+theorem counterexample_float_int :
+    eligible noMappers cxFloat = true
+    ∧ (match deserialize exO {} cxFloat (.dict [(.str "m", .int 1)]),
+             deserializeTrusted noMappers exO {} cxFloat (.dict [(.str "m", .int 1)]) with
+        | .ok x, .ok y => eqv x y
+        | _, _ => false) = true
+    ∧ ∀ x y, deserialize exO {} cxFloat (.dict [(.str "m", .int 1)]) = .ok x →
+        deserializeTrusted noMappers exO {} cxFloat (.dict [(.str "m", .int 1)]) = .ok y →
+        serialize exO cxFloat y ≠ serialize exO cxFloat x := by
+  refine ⟨by decide, by decide, fun x y hx hy h => ?_⟩
+  have e1 : docHas "m" isIntDoc (bindE (deserialize exO {} cxFloat (.dict [(.str "m", .int 1)])) (serialize exO cxFloat)) = false := by decide
+  have e2 : docHas "m" isIntDoc (bindE (deserializeTrusted noMappers exO {} cxFloat (.dict [(.str "m", .int 1)])) (serialize exO cxFloat)) = true := by decide
+  rw [hx] at e1; rw [hy] at e2
+  simp only [bindE_ok] at e1 e2
+  rw [h, e1] at e2
+  cases e2
+
+/-- finding `none-attribute-hash:set-of-structures`: trusted instances keep a null as an attribute
+    holding None, which `Structure.__hash__` (= hash of `str(self)`) sees: two elements that are
+    `==` both stay in the set -/
+def fooOpt : FieldDecl := mkCls "Foo" [] [("a", .integer {}), ("b", .integer {})]
+def cxSetStruct : FieldDecl := mkCls "A" ["m"] [("m", .setOf false fooOpt {})]
+def cxSetStructDoc : PyVal :=
+  .dict [(.str "m", .list [.dict [(.str "a", .int 1)], .dict [(.str "a", .int 1), (.str "b", .none)]])]
+theorem counterexample_set_of_structures :
+    eligible noMappers cxSetStruct = true
+    ∧ (match deserialize exO {} cxSetStruct cxSetStructDoc,
+             deserializeTrusted noMappers exO {} cxSetStruct cxSetStructDoc with
+        | .ok (.inst _ [(_, .set _ xs)]), .ok (.inst _ [(_, .set _ ys)]) => xs.length == 1 && ys.length == 2
+        | _, _ => false) = true := by
+  decide
+
+/-- the statement at full strength is false of the model (hence, by correspondence, of the code) -/
+theorem trusted_statement_false : ¬ trusted_statement := by
+  intro h
+  rcases counterexample_crash_enum_mapping with ⟨h1, h2, h3, h4⟩
+  cases hx : deserialize exO {} cxCrash (.dict [(.str "m", .int 1)]) with
+  | error e => rw [hx] at h3; cases h3
+  | ok x =>
+    rcases h exO {} cxCrash (.dict [(.str "m", .int 1)]) x h1 h2 (by decide) hx with ⟨y, hy, _⟩
+    rw [hy] at h4
+    cases h4
+
+/-- finding `ineligible-raises:unsupported-mapper`: a class whose mapper `_is_mapper_simple`
+    refuses is not eligible, yet the flag is not a no-op: the classifier raises ValueError -/
+def cxComplexEnv : MapEnv := fun n => if n == "A" then .complex false else .none
+theorem counterexample_ineligible_raises :
+    eligible cxComplexEnv cxExtras = false
+    ∧ isOk (deserialize exO {} cxExtras (.dict [(.str "m", .int 1)])) = true
+    ∧ isErr (deserializeWithFlag cxComplexEnv exO {} true cxExtras (.dict [(.str "m", .int 1)])) = true := by
+  decide
+
+theorem ineligible_statement_false : ¬ ineligible_statement := by
+  intro h
+  rcases counterexample_ineligible_raises with ⟨h1, h2, h3⟩
+  have := h cxComplexEnv exO {} { name := "A", required := ["m"], accepts := ["A"] }
+    [("m", .integer {})] [] (.dict [(.str "m", .int 1)]) h1
+  unfold cxExtras mkCls at h2 h3
+  rw [this] at h3
+  cases hd : deserialize exO {} (.struct { name := "A", required := ["m"], accepts := ["A"] }
+      [("m", .integer {})] []) (.dict [(.str "m", .int 1)]) with
+  | ok x => rw [hd] at h3; cases h3
+  | error e => rw [hd] at h2; cases h2
+
+/-! ### non-vacuity of `trusted_equiv_partial` -/
+
+def exInner : FieldDecl :=
+  .struct { name := "Inner", required := ["id"], accepts := ["Inner"], ignoreNone := true, addl := false }
+    [("id", .integer { min := some ⟨0, 1⟩ }), ("tags", .setOf true (.string (some 1) none none) {}),
+     ("note", .anyOf [.string none none none, .noneF])] []
+def exOuter : FieldDecl :=
+  .struct { name := "Outer", required := ["kind", "items"], accepts := ["Outer"] }
+    [("kind", .enumCls "Color" ["RED", "BLUE"]), ("items", .seqOf .list exInner { max := some 3 }),
+     ("best", .anyOf [exInner, .noneF]), ("ratio", .anyOf [.noneF, .float {}]), ("flags", .seqOf .list .boolean {}), ("count", .integer {})] []
+def exDoc : PyVal :=
+  .dict [(.str "kind", .str "BLUE"),
+         (.str "items", .list [.dict [(.str "id", .int 1), (.str "tags", .list [.str "a", .str "b", .str "a"]), (.str "note", .none)],
+                               .dict [(.str "id", .int 2)]]),
+         (.str "best", .dict [(.str "id", .int 7), (.str "note", .str "x")]),
+         (.str "ratio", .float ⟨1, 2⟩), (.str "flags", .list [.bool true]), (.str "count", .none), (.str "unused", .none)]
+
+/-- a nested class tree with Enum, Array of classes, Optional class, Set, `_ignore_none`, nulls and
+    an undeclared key (keep_undefined off) meets every hypothesis of `trusted_equiv_partial`, and the trusted instance
+    really differs syntactically from the regular one (attributes holding None, set vs frozenset) -/
+theorem trusted_equiv_example :
+    eligible noMappers exOuter = true ∧ tsafeCls exOuter = true
+    ∧ plainDoc { keepUndefined := false } exOuter exDoc = true
+    ∧ isOk (deserialize exO { keepUndefined := false } exOuter exDoc) = true
+    ∧ (match deserialize exO { keepUndefined := false } exOuter exDoc,
+             deserializeTrusted noMappers exO { keepUndefined := false } exOuter exDoc with
+        | .ok x, .ok y => eqv x y && !(PyVal.pyEq x y)
+        | _, _ => false) = true := by
+  decide
+
+/-- a `not_nested` class (scalars and an Array of scalars) -/
+def exFlat : FieldDecl :=
+  .struct { name := "Flat", required := ["a"], accepts := ["Flat"] }
+    [("a", .integer {}), ("b", .seqOf .list (.string none none none) {}), ("c", .float {})] []
+theorem trusted_equiv_flat_example :
+    verdictOf noMappers exFlat = .lvl .flat ∧ tsafeCls exFlat = true
+    ∧ plainDoc {} exFlat (.dict [(.str "a", .int 1), (.str "b", .list [.str "x"]), (.str "c", .none)]) = true
+    ∧ isOk (deserialize exO {} exFlat (.dict [(.str "a", .int 1), (.str "b", .list [.str "x"]), (.str "c", .none)])) = true := by
+  decide
+
+/-! ## 2. trusted construction: `from_trusted_data`, `trust_supplied_values` -/
+
+def from_trusted_statement : Prop :=
+  ∀ (O : Oracles) (cls : FieldDecl) (kw : List (String × PyVal)) (x : PyVal),
+    construct O cls kw = .ok x → ∃ y, fromTrustedKw cls kw = .ok y ∧ eqv x y = true
+
+/-- **C10 (trusted construction), proved part**: on constructor-valid keyword arguments that are
+    already in stored form (`storedKw`: the explicit normalisation side condition — no Float ← int,
+    Boolean ← 'True'/'False', Enum ← member name, StructureReference ← dict, rebuilt Set / Map /
+    positional collection, omitted default, undeclared keyword) `from_trusted_data(mapping)` yields
+    an instance equal to the validated one -/
+theorem from_trusted_equiv_partial (O : Oracles) (cls : FieldDecl) (kw : List (String × PyVal))
+    (x : PyVal) (hs : storedKw cls kw = true) (hc : construct O cls kw = .ok x) :
+    ∃ y, fromTrustedMap cls kw = .ok y ∧ eqv x y = true := by
+  rcases from_trusted_map_core O cls kw x hs hc with ⟨y, h1, h2⟩
+  refine ⟨y, h1, ?_⟩
+  unfold eqv; rw [h2]; exact pyEq_refl _
+
+/-- `from_trusted_data(None, **kw)` and `cls(**kw)` under `trust_supplied_values()` store every
+    keyword as given; listed in field order (the order of `__dict__` is not observable through
+    `==`) this is the instance `from_trusted_data(mapping)` builds -/
+theorem from_trusted_kw_equiv_partial (O : Oracles) (c : ClassOpts) (fields : List (String × FieldDecl))
+    (defaults kw : List (String × PyVal)) (x : PyVal)
+    (hs : storedKw (.struct c fields defaults) kw = true)
+    (hord : kwInFieldOrder fields kw = kw)
+    (hc : construct O (.struct c fields defaults) kw = .ok x) :
+    ∃ y, fromTrustedKw (.struct c fields defaults) kw = .ok y ∧ eqv x y = true := by
+  rcases from_trusted_equiv_partial O _ kw x hs hc with ⟨y, h1, h2⟩
+  refine ⟨y, ?_, h2⟩
+  simp only [fromTrustedMap] at h1
+  simp only [fromTrustedKw]
+  unfold kwInFieldOrder at hord
+  rw [hord] at h1
+  exact h1
+
+/-- the excluded points, run on the model: an Enum field given a member NAME is constructor-valid,
+    the validated instance holds the member, the trusted one the string — not equal (finding
+    `unnormalised:enum-name`); a Float given an int is equal (`1 == 1.0`) -/
+def cxEnumName : FieldDecl := mkCls "A" ["m"] [("m", .enumCls "Color" ["RED"])]
+theorem counterexample_from_trusted_enum_name :
+    (match construct exO cxEnumName [("m", .str "RED")], fromTrustedKw cxEnumName [("m", .str "RED")] with
+      | .ok x, .ok y => !eqv x y
+      | _, _ => false) = true
+    ∧ (match construct exO cxFloat [("m", .int 1)], fromTrustedKw cxFloat [("m", .int 1)] with
+      | .ok x, .ok y => eqv x y
+      | _, _ => false) = true := by
+  decide
+
+theorem from_trusted_statement_false : ¬ from_trusted_statement := by
+  intro h
+  have hc := counterexample_from_trusted_enum_name.1
+  cases hx : construct exO cxEnumName [("m", .str "RED")] with
+  | error e => rw [hx] at hc; cases hc
+  | ok x =>
+    rcases h exO cxEnumName [("m", .str "RED")] x hx with ⟨y, hy, he⟩
+    rw [hx, hy] at hc
+    simp only [he, Bool.not_true] at hc
+    cases hc
+
+theorem from_trusted_example :
+    storedKw exOuter [("kind", .enumv "Color" "RED"), ("items", .list []), ("flags", .list [.bool false])] = true
+    ∧ isOk (construct exO exOuter [("kind", .enumv "Color" "RED"), ("items", .list []), ("flags", .list [.bool false])]) = true := by
+  decide
+
+/-! ## 3. fast serialization -/
+
+/-- the statement at full strength: every class tree (all classes FastSerializable, no mapper) for
+    which `create_serializer` succeeds, every well-formed instance, both flags -/
+def fast_statement : Prop :=
+  ∀ (O : Oracles) (cls : FieldDecl) (x : PyVal) (compact : Bool),
+    wfDecl cls = true → createOk noMappers [] cls = true → wellFormed O cls x = true →
+    fastSerialize noMappers [] false compact cls x = serializeCompact O compact cls x
+
+/-- **C10 (fast serialization), proved part**: for every class in the region `fsafeCls` (scalars,
+    Enum, Array / Deque / Set / Map / fixed-length Tuple over such fields at any depth, nested
+    FastSerializable classes, Optional) and every instance of the stored shape (`fwf`), the
+    installed `serialize()` returns the document the regular serialization of the identically
+    declared class returns (for the instance with its attributes listed in field order: the
+    order of `__dict__` / of the document's keys is not part of the claim). -/
+theorem fast_equiv_partial (O : Oracles) (cls : FieldDecl) (x : PyVal)
+    (hs : fsafeCls [] cls = true) (hw : fwf O cls x = true) :
+    fastSerialize noMappers [] false false cls x = serialize O cls (canonV cls x) :=
+  fast_equiv_core O cls x hs hw
+
+/-- `compact=True` on both sides, for the classes the regular path compacts (one field, required,
+    no additional properties) holding a value -/
+theorem fast_equiv_compact_partial (O : Oracles) (c : ClassOpts) (n : String) (f : FieldDecl)
+    (defaults : List (String × PyVal)) (cn : String) (attrs : List (String × PyVal)) (v : PyVal)
+    (hs : fsafeCls [] (.struct c [(n, f)] defaults) = true)
+    (hw : fwf O (.struct c [(n, f)] defaults) (.inst cn attrs) = true)
+    (hreq : c.required = [n]) (haddl : c.addl = false)
+    (hv : lookup n attrs = some v) (hvn : v.isNone = false) :
+    fastSerialize noMappers [] false true (.struct c [(n, f)] defaults) (.inst cn attrs)
+      = serializeCompact O true (.struct c [(n, f)] defaults)
+          (canonV (.struct c [(n, f)] defaults) (.inst cn attrs)) :=
+  fast_compact_core O c n f defaults cn attrs v hs hw hreq haddl hv hvn
+
+/-- `serialize_none=True` only adds explicit nulls: removing them gives the `serialize_none=False`
+    document (for every class, instance and set of non-fast classes; no region needed) -/
+theorem fast_serialize_none (NF : List String) (cls : FieldDecl) (x : PyVal) :
+    fastSerialize noMappers NF false false cls x
+      = bindE (fastSerialize noMappers NF true false cls x) fun d =>
+          match d with
+          | .dict r => .ok (.dict (r.filter fun kv => !kv.2.isNone))
+          | w => .ok w :=
+  fast_serialize_none_core NF cls x
+
+/-! ### counterexamples: the known findings of fast serialization -/
+
+/-- finding `fast:tuple-index`: `Tuple[Integer]` keeps `items = [Integer]` and indexes it by
+    position: a two-element tuple raises IndexError -/
+def cxTuple : FieldDecl := mkCls "A" ["t"] [("t", .tupleOf (.integer {}) false)]
+theorem counterexample_fast_tuple_index :
+    createOk noMappers [] cxTuple = true
+    ∧ wellFormed exO cxTuple (.inst "A" [("t", .tuple [.int 1, .int 2])]) = true
+    ∧ isOk (serialize exO cxTuple (.inst "A" [("t", .tuple [.int 1, .int 2])])) = true
+    ∧ isErr (fastSerialize noMappers [] false false cxTuple (.inst "A" [("t", .tuple [.int 1, .int 2])])) = true := by
+  decide
+
+/-- finding `fast:positional-index`: a positional Array with surplus elements raises IndexError -/
+def cxPos : FieldDecl := mkCls "A" ["t"] [("t", .seqPos .list [.integer {}] true {})]
+theorem counterexample_fast_positional_index :
+    createOk noMappers [] cxPos = true
+    ∧ wellFormed exO cxPos (.inst "A" [("t", .list [.int 1, .str "x"])]) = true
+    ∧ isOk (serialize exO cxPos (.inst "A" [("t", .list [.int 1, .str "x"])])) = true
+    ∧ isErr (fastSerialize noMappers [] false false cxPos (.inst "A" [("t", .list [.int 1, .str "x"])])) = true := by
+  decide
+
+/-- finding `fast:compact-conditions`: `set_compact_wrapper` compacts every one-field class; the
+    regular path only one whose field is required and that forbids additional properties -/
+def cxCompact : FieldDecl := mkCls "A" ["a"] [("a", .integer {})]
+def isDictDoc : R PyVal → Bool | .ok (.dict _) => true | _ => false
+theorem counterexample_fast_compact_conditions :
+    createOk noMappers [] cxCompact = true
+    ∧ isDictDoc (serializeCompact exO true cxCompact (.inst "A" [("a", .int 1)])) = true
+    ∧ isDictDoc (fastSerialize noMappers [] false true cxCompact (.inst "A" [("a", .int 1)])) = false := by
+  decide
+
+/-- finding `fast:inline-none-keys`: `StructureReference.serialize` emits every field, unset ones
+    as null; the regular path drops them -/
+def cxInline : FieldDecl :=
+  mkCls "A" ["s"] [("s", .struct { name := "Inl", required := ["x"], inline := true }
+                          [("x", .integer {}), ("y", str0)] [])]
+def cxInlineX : PyVal := .inst "A" [("s", .inst "Inl" [("x", .int 1)])]
+def sizeAt (k : String) (r : R PyVal) : Nat :=
+  match r with
+  | .ok (.dict kvs) => (kvs.filterMap fun kv => match kv.1, kv.2 with
+      | .str s, .dict inner => if s == k then some inner.length else none
+      | _, _ => none).foldl (· + ·) 0
+  | _ => 0
+theorem counterexample_fast_inline_none_keys :
+    createOk noMappers [] cxInline = true
+    ∧ sizeAt "s" (serialize exO cxInline cxInlineX) = 1
+    ∧ sizeAt "s" (fastSerialize noMappers [] false false cxInline cxInlineX) = 2 := by
+  decide
+
+/-- finding `fast:untyped-raw`: the elements of an untyped Array / Deque / Map are copied, not
+    serialized: a tuple inside stays a tuple where the regular path emits a JSON array -/
+def cxUntyped : FieldDecl := mkCls "A" ["q"] [("q", .seqAny .list {})]
+def fieldHoldsTuple (r : R PyVal) : Bool :=
+  match r with
+  | .ok (.dict [(_, .list [.tuple _])]) => true
+  | _ => false
+theorem counterexample_fast_untyped_raw :
+    createOk noMappers [] cxUntyped = true
+    ∧ fieldHoldsTuple (serialize exO cxUntyped (.inst "A" [("q", .list [.tuple [.int 2, .int 3]])])) = false
+    ∧ fieldHoldsTuple (fastSerialize noMappers [] false false cxUntyped
+        (.inst "A" [("q", .list [.tuple [.int 2, .int 3]])])) = true := by
+  decide
+
+/-- finding `fast:extras-dropped` (documented limitation): an attribute that is not a declared
+    field is serialized by the regular path only -/
+theorem counterexample_fast_extras :
+    createOk noMappers [] cxCompact = true
+    ∧ wellFormed exO cxCompact (.inst "A" [("a", .int 1), ("zz", .int 2)]) = true
+    ∧ docHas "zz" (fun _ => true) (serialize exO cxCompact (.inst "A" [("a", .int 1), ("zz", .int 2)])) = true
+    ∧ docHas "zz" (fun _ => true)
+        (fastSerialize noMappers [] false false cxCompact (.inst "A" [("a", .int 1), ("zz", .int 2)])) = false := by
+  decide
+
+theorem fast_statement_false : ¬ fast_statement := by
+  intro h
+  rcases counterexample_fast_tuple_index with ⟨h1, h2, h3, h4⟩
+  have := h exO cxTuple (.inst "A" [("t", .tuple [.int 1, .int 2])]) false (by decide) h1 h2
+  simp only [serializeCompact, cxTuple, mkCls, Bool.false_and, Bool.false_eq_true, if_false] at this
+  simp only [cxTuple, mkCls] at h3 h4
+  rw [this] at h4
+  cases hs : serialize exO (.struct { name := "A", required := ["t"], accepts := ["A"] }
+      [("t", .tupleOf (.integer {}) false)] []) (.inst "A" [("t", .tuple [.int 1, .int 2])]) with
+  | ok j => rw [hs] at h4; cases h4
+  | error e => rw [hs] at h3; cases h3
+
+/-! ### non-vacuity of `fast_equiv_partial` -/
+
+def exFastInner : FieldDecl :=
+  .struct { name := "Inner", required := ["id"], accepts := ["Inner"] }
+    [("id", .integer {}), ("tags", .setOf false (.enumCls "Color" ["RED", "BLUE"]) {}),
+     ("note", .anyOf [.string none none none, .noneF])] []
+def exFastOuter : FieldDecl :=
+  .struct { name := "Outer", required := ["items"], accepts := ["Outer"] }
+    [("items", .seqOf .list exFastInner {}), ("m", .mapOf (.string none none none) (.float {}) {}),
+     ("pair", .tuplePos [.integer {}, .boolean] false), ("best", .anyOf [.noneF, exFastInner]),
+     ("q", .seqOf .deque (.number {}) {})] []
+def exFastX : PyVal :=
+  .inst "Outer" [("best", .inst "Inner" [("note", .str "n"), ("id", .int 7)]),
+                 ("items", .list [.inst "Inner" [("id", .int 1), ("tags", .set false [.enumv "Color" "RED"])]]),
+                 ("m", .dict [(.str "k", .float ⟨1, 2⟩)]), ("pair", .tuple [.int 1, .bool true]),
+                 ("q", .deque [.int 1, .float ⟨3, 2⟩])]
+
+/-- a class tree with nested classes, Array / Set / Map / Tuple / Deque, Enum and both Optional
+    shapes, with attributes NOT in field order, meets the hypotheses; the fast document is a
+    five-key JSON object -/
+theorem fast_equiv_example :
+    fsafeCls [] exFastOuter = true ∧ fwf exO exFastOuter exFastX = true
+    ∧ createOk noMappers [] exFastOuter = true ∧ wellFormed exO exFastOuter exFastX = true
+    ∧ (match fastSerialize noMappers [] false false exFastOuter exFastX with
+        | .ok (.dict r) => r.length == 5 && isJson (.dict r)
+        | _ => false) = true := by
+  decide
+
 end Typedpy.C10
